@@ -223,7 +223,7 @@ def fit_reference(variant, X, post):
 
 
 # --------------------------------------------------------------------------
-def build_wrapper(cfg, variant, X, su):
+def build_wrapper(cfg, variant, X, su, wlist=False):
     from skactiveml.pool.utils import IndexClassifierWrapper
 
     y0 = np.array([lab_c(v) for v in cfg["initY"]], dtype=float)
@@ -232,6 +232,8 @@ def build_wrapper(cfg, variant, X, su):
     if cfg["prefit"] != "none":
         pre = [i - 1 for i in cfg["preI"]]
         clf.fit(X[pre], y0[pre], None if w0 is None else w0[pre])
+    if wlist and w0 is not None:      # "array-like": the stored weights handed over as a python list
+        w0 = [float(v) for v in w0]
     return IndexClassifierWrapper(clf, X, y0, sample_weight=w0, set_base_clf=(cfg["prefit"] == "fitbase"),
                                   ignore_partial_fit=cfg["ipf"], enforce_unique_samples=cfg["eu"],
                                   use_speed_up=su)
@@ -270,7 +272,8 @@ def init_post(cfg):
 
 def replay(arg):
     """worker: one behaviour x one classifier variant -> list of traces"""
-    beh, variant, geom, xseed, tag, corrupt = arg
+    beh, variant, geom, xseed, tag, corrupt = arg[:6]
+    wlist = len(arg) > 6 and arg[6]
     warnings.filterwarnings("ignore")
     cfg = beh["cfg"]
     n = cfg["n"]
@@ -280,7 +283,7 @@ def replay(arg):
     su = bool(cfg["su"]) and cfg["kind"] == "pwc"
     as_array = bool(xseed % 2)
 
-    runs = [("main", dict(cfg), build_wrapper(cfg, variant, X, cfg["su"]))]
+    runs = [("main", dict(cfg), build_wrapper(cfg, variant, X, cfg["su"], wlist))]
     if su:   # paired run without the speed-up
         c2 = dict(cfg)
         c2["su"] = False
@@ -332,9 +335,11 @@ def replay(arg):
     traces = []
     for name, c, w in runs:
         tr = {"id": "C19/%s/%s/%s" % (tag, variant, name), "cfg": c, "events": events[name],
-              "variant": variant,
+              "variant": variant, "initw_list": bool(wlist),
               "concrete": {"X": X.tolist(), "classifier": variant, "flags": {k: c[k] for k in ("su", "eu", "ipf")},
                            "prefit": c["prefit"], "args_as": "ndarray" if as_array else "list",
+                           "stored_labels": c["initY"], "stored_weights": c["initW"],
+                           "stored_weights_as": "list" if wlist else "ndarray",
                            "calls": [h["op"] for h in beh["hist"]], "zero_based": "indices in calls are 1-based"}}
         traces.append(tr)
     if corrupt:
@@ -363,12 +368,21 @@ FAMILY = {"pwc-default": "pwc", "pwc-gamma": "pwc", "pwc-knn": "pwc", "pwc-gamma
           "nb-default": "nb", "nb-smooth": "nb", "lr-default": "lr", "lr-C10": "lr"}
 
 
-def config_class(tr):
+def config_class(tr, rej):
+    """<classifier family>[+speedup][+prefitted-model][+init-weights-as-list]"""
     c = tr["cfg"]
-    su = int(bool(c["su"]) and c["kind"] == "pwc")
-    native = int(c["kind"] == "nb" and not c["ipf"])
-    return "%s,speedup=%d,native_partial_fit=%d,prefitted=%d" % (FAMILY[tr["variant"]], su, native,
-                                                                  int(c["prefit"] != "none"))
+    fam = FAMILY[tr["variant"]]
+    if c["kind"] == "nb":
+        fam += "-refit" if c["ipf"] else "-native-partial_fit"
+    parts = [fam]
+    if c["su"] and c["kind"] == "pwc":
+        parts.append("speedup")
+    seen = tr["events"][:rej["matched_events"] + 1]
+    if c["prefit"] != "none" and not any(e["ev"] == "Fit" for e in seen):
+        parts.append("prefitted-model")       # the model in use came fitted through __init__
+    if tr.get("initw_list"):
+        parts.append("init-weights-as-list")
+    return "+".join(parts)
 
 
 def key_of(tr, rej):
@@ -380,7 +394,7 @@ def key_of(tr, rej):
                   "cur-triples-equal-spec", "base-triples-equal-spec", "unmatched"):
         where += "." + {"Fit": "fit", "PartialFit": "partial_fit", "Precompute": "precompute",
                         "Init": "__init__"}.get((ev.get("op") or {}).get("op", ""), "call")
-    return "%s|%s|%s" % (where, config_class(tr), clause)
+    return "%s|%s|%s" % (where, config_class(tr, rej), clause)
 
 
 def describe(tr):
@@ -421,13 +435,13 @@ def main(tier="quick", seed=0):
     # ---- (M) exhaustive model checking of the design (runs while behaviours are
     # generated and replayed) -----------------------------------------------------
     mcs = ["MC_IndexWrapper_d4.cfg", "MC_IndexWrapper.cfg"] if quick else \
-        ["MC_IndexWrapper_d4n.cfg", "MC_IndexWrapper_wide.cfg"]
+        ["MC_IndexWrapper_d4n.cfg", "MC_IndexWrapper_mid2.cfg"]
     mc_pool = ThreadPoolExecutor(max_workers=len(mcs))
     futs = [mc_pool.submit(_mc, c, 6 if quick else 8) for c in mcs]
     # ---- (G) behaviours ---------------------------------------------------------
     gen_cfg = "IndexWrapper_gen.cfg" if quick else "IndexWrapper_gen3.cfg"
     exh_all = chk.generate("MC_IndexWrapper", gen_cfg)
-    n_sim, per = (4, 400) if quick else (12, 2500)
+    n_sim, per = (4, 400) if quick else (12, 1500)
     with ThreadPoolExecutor(max_workers=n_sim) as ex2:
         sims = list(ex2.map(_sim, [(1000 * seed + k + 1, per) for k in range(n_sim)]))
     walks = []
@@ -437,7 +451,7 @@ def main(tier="quick", seed=0):
         chk.mc_runs.append({"module": "MC_IndexWrapper", "cfg": "IndexWrapper_sim.cfg (-simulate)",
                             "generated_cases": len(res.json_lines), "wall_s": round(res.wall, 2)})
     rng = np.random.default_rng(seed)
-    n_exh = 1800 if quick else 60000
+    n_exh = 1800 if quick else 30000
     if len(exh_all) > n_exh:     # seeded subset of the exhaustive enumeration
         exh = [exh_all[i] for i in sorted(rng.choice(len(exh_all), size=n_exh, replace=False))]
     else:
@@ -462,6 +476,12 @@ def main(tier="quick", seed=0):
                 g = geoms[int(rng.integers(len(geoms)))]
                 items.append((beh, v, g, int(rng.integers(1 << 30)), "%s%d-s%d" % (src, b, seed),
                               corrupt if (corrupt and len(items) == 7) else ""))
+    # stored sample weights handed over as a python list (array-like): a few
+    # behaviours of the plainest configuration
+    extra = [it for it in items if it[0]["cfg"]["initW"] and it[0]["cfg"]["kind"] == "lr"
+             and not (it[0]["cfg"]["su"] or it[0]["cfg"]["eu"] or it[0]["cfg"]["ipf"])
+             and it[0]["cfg"]["prefit"] == "none"][:(40 if quick else 400)]
+    items += [it[:4] + (it[4] + "-wlist", "", True) for it in extra]
     out = pmap(replay, items)
     for f in futs:
         cfgname, res = f.result()
